@@ -368,7 +368,7 @@ func runC18(c *Ctx) {
 
 		c.Check(okW, "R18.8", "compression writer: prefix is {0x00, compressor.ID()}", fpos(w), "yes", "prefix changed")
 		c.MustCut("R18.8", "Compress ⊣ {len(encoded) >= minSize}", w, p.CallTo("("+pkgCompression+".Compressor).Compress"), CutSpec{Edges: func(e EdgeInfo) bool {
-			return GlobAny([]string{"ge(call:builtin.len(*),*param#0.minSize)"}, e.Facts[0])
+			return FactEdge("ge(call:builtin.len(*),*param#0.minSize)")(e)
 		}}, 1)
 
 		// reader: b[0]==0, b[1]==ID(), payload b[2:]
